@@ -1,0 +1,24 @@
+//go:build verif
+
+package mutating
+
+import (
+	appsv1beta1 "github.com/openkruise/rollouts/api/v1beta1"
+	apps "k8s.io/api/apps/v1"
+	"sigs.k8s.io/controller-runtime/pkg/client"
+)
+
+// Exported views of unexported identifiers for the verification harness
+// (compiled only with -tags verif; add-only).
+
+func VerifIsEffectiveDeploymentRevisionChange(oldObj, newObj *apps.Deployment) bool {
+	return isEffectiveDeploymentRevisionChange(oldObj, newObj)
+}
+
+func (h *WorkloadHandler) VerifFetchMatchedRollout(obj client.Object) (*appsv1beta1.Rollout, error) {
+	return h.fetchMatchedRollout(obj)
+}
+
+func (h *UnifiedWorkloadHandler) VerifFetchMatchedRollout(obj client.Object) (*appsv1beta1.Rollout, error) {
+	return h.fetchMatchedRollout(obj)
+}
